@@ -372,6 +372,9 @@ func runC13(c *Ctx) {
 }
 
 func replayC13(kind string, raw json.RawMessage) *Failure {
+	if kind != "dawg-search" {
+		return unsupportedKind(kind)
+	}
 	var sc searchCase
 	if err := json.Unmarshal(raw, &sc); err != nil {
 		return &Failure{Class: "replay/bad-file", What: err.Error()}
